@@ -310,8 +310,8 @@ class ImageViewerState(MatplotlibDataViewerState):
                 else:
                     self.y_att = self.y_att_world
 
-            if not forced:
-                self._on_xatt_world_change(forced=True)
+                if not forced:
+                    self._on_xatt_world_change(forced=True)
 
     def _set_reference_data(self):
         if self.reference_data is None:
